@@ -23,6 +23,7 @@ import (
 	"strings"
 	"unicode"
 	"unicode/utf16"
+	"unicode/utf8"
 )
 
 type token int
@@ -515,6 +516,14 @@ func (t *tokenizer) readSymbol() (string, error) {
 	return ret.String(), nil
 }
 
+// validText rejects quoted text (string or symbol) that is not valid UTF-8.
+func (t *tokenizer) validText(s string) (string, error) {
+	if !utf8.ValidString(s) {
+		return "", &SyntaxError{"text is not valid UTF-8", t.pos - 1}
+	}
+	return s, nil
+}
+
 // ReadQuotedSymbol reads a quoted symbol.
 func (t *tokenizer) readQuotedSymbol() (string, error) {
 	ret := strings.Builder{}
@@ -534,7 +543,7 @@ func (t *tokenizer) readQuotedSymbol() (string, error) {
 			return "", t.invalidChar(c)
 
 		case '\'':
-			return ret.String(), nil
+			return t.validText(ret.String())
 
 		case '\\':
 			c, err = t.peek()
@@ -601,7 +610,7 @@ func (t *tokenizer) readString() (string, error) {
 
 		switch c {
 		case '"':
-			return ret.String(), nil
+			return t.validText(ret.String())
 
 		case '\\':
 			err = processBackslashInString(t, &ret)
@@ -670,7 +679,7 @@ func (t *tokenizer) readLongString() (string, error) {
 				return "", err
 			}
 			if isEndOfString {
-				return ret.String(), nil
+				return t.validText(ret.String())
 			}
 			if !isConsumed {
 				// No character has been consumed. It is a single '.
